@@ -10,6 +10,14 @@
 #include <sys/stat.h>
 
 using namespace prog;
+#if defined(__has_feature)
+#if __has_feature(thread_sanitizer)
+#define TSAN_BUILD 1
+#endif
+#endif
+#ifndef TSAN_BUILD
+#define TSAN_BUILD 0
+#endif
 
 struct Op { int kind; /*0 create+assemble+destroy cycle*/ int combo, mode, chunk, start; bool internal; std::string program; int yield_mask; int via_file = 0; /*1 the program is read through asm_assemble_file, 2 a directory is assembled (must fail), 3 deprecated alias*/ std::string path; };
 struct Res { int rc, off, cnt; uint64_t hash; bool operator==(const Res &o) const { return rc == o.rc && off == o.off && cnt == o.cnt && hash == o.hash; } };
@@ -86,6 +94,10 @@ int main(int argc, char **argv) {
     for (int t = 0; t < nth; t++) for (int i = 0; i < nops; i++) {
       Op op; op.kind = 0; op.combo = (int)r.below(12); op.mode = (int)r.below(3); op.chunk = CH[r.below(7)]; op.start = r.below(3) == 0 ? (int)r.below(100) : 0; op.internal = r.below(3) == 0; op.yield_mask = (int)r.below(8);
       int n = 1 + (int)r.below(12); bool failing = r.below(6) == 0;
+      // now and then a program long enough to make the library-managed buffer grow (and move) while other threads map and unmap theirs
+      // (not in the ThreadSanitizer build: it does not follow mremap, so a buffer that moved into an address range another thread used
+      // before is reported as a race on that stale shadow state)
+      if (!threads_first && !TSAN_BUILD && r.below(9) == 0) { op.internal = true; n = 1300 + (int)r.below(900); failing = false; op.start = 0; }
       for (int k = 0; k < n; k++) { if (failing && k == n / 2) op.program += P.bad[r.below(P.bad.size())] + "\n"; op.program += P.lines[r.below(P.lines.size())] + "\n"; }
       // lookups of every first letter: lines start with different mnemonics by construction of the pool
       if (threads_first && i == 0) { op.internal = false; op.mode = 0; op.start = 0; op.yield_mask = 0; static const char *LATE[] = {"xend", "xend", "xor rax, rax", "xend", "sfence", "xchg rbx, rcx", "xend", "vpxor ymm1, ymm2, ymm3"}; op.program = std::string(LATE[(t + round) % 8]) + "\n"; } // late first letters, cheapest tokenisation
